@@ -34,9 +34,35 @@ RULE = ("seeded generator (VERIF_SEED). S: scripted peer vs real endpoint (roles
         "honest prefix + every single deviation at every position, every truncation and every length/count field perturbation of every message body, "
         "ClientHello/ServerHello versions 0x0000..0x0400 (quick: stride + boundaries) x suite lists, random sequences up to length 12, certificate-kind mixes; "
         "H: real client vs real server for every mode pair x ClientAuth x suites x tickets x resumption x MaxVersion; V: version gate black box; "
-        "PK/PS/PR/PH: byte-level parsers through hooks. Non-trivial: every case except the empty script; distinct = distinct case text")
+        "R: an otherwise honest scripted peer (genuine key exchange and verify_data through hooks) re-packing its flights into records (every coalescing, Finished in the clear before ChangeCipherSpec, ChangeCipherSpec twice / early / missing) and offering ClientHello versions in the gap 0x0102..0x02ff; per-extension perturbations of ClientHello/ServerHello (every extension type x body lengths 0,1,2,len-1,len+1 x position); PK/PS/PR/PH: byte-level parsers through hooks. Non-trivial: every case except the empty script; distinct = distinct case text")
 
 STATIC_FINDINGS = ()
+
+
+def _kv(s):
+    return dict(x.split("=", 1) for x in s.split(","))
+
+
+def _r_legal(f):
+    """R case: is the scripted peer's behaviour a legal GMSSL handshake (messages in the honest order, Finished after
+    the one ChangeCipherSpec, ClientHello version 0x0101)?  Coalescing handshake messages into one record is legal."""
+    victim, cfg, chv, packing = f[2], _kv(f[4]), f[5], f[6]
+    flights = packing.split("/")
+    if len(flights) != 2:
+        return False
+    recs = [[r.split("+") for r in fl.split("|")] for fl in flights]
+    if any("CCS" in r and len(r) > 1 for fl in recs for r in fl):
+        return False
+    flat = [[m for r in fl for m in r] for fl in recs]
+    if victim == "sg":
+        if chv != "0101":
+            return False
+        auth, cc = int(cfg["auth"]), cfg["cc"] == "1"
+        want2 = (["CCERT"] if auth >= 1 else []) + ["CKX"] + (["CV"] if auth >= 1 and cc else []) + ["CCS", "FIN"]
+        return flat[0] == ["CH"] and flat[1] == want2
+    want1 = ["SH", "CERT", "SKX"] + (["CR"] if cfg["cr"] == "1" else []) + ["SHD"]
+    want2 = (["NST"] if cfg["tk"] == "1" else []) + ["CCS", "FIN"]
+    return flat[0] == want1 and flat[1] == want2
 
 
 def nontrivial(f):
@@ -46,7 +72,7 @@ def nontrivial(f):
 
 
 def classify(f, io):
-    k = f[0] + (":" + f[2] if f[0] in ("S", "H", "V") else "")
+    k = f[0] + (":" + f[2] if f[0] in ("S", "H", "V", "R") else "")
     return k + ":" + (io[0] if io else "none")
 
 
@@ -61,6 +87,14 @@ def predicate(f, io):
         if io[0] == "ok":
             return False, "handshake reported complete although the scripted peer never sent a valid Finished"
         if io[0] != "err":
+            return False, "unexpected outcome " + io[0]
+        return True, ""
+    if op == "R":
+        # an otherwise honest scripted peer (genuine key exchange and verify_data) that deviates in record packing,
+        # message order or ClientHello version: completion is allowed only when nothing deviates
+        if io[0] == "ok" and not _r_legal(f):
+            return False, "handshake reported complete although the peer deviated (packing/order %s, client_version %s)" % (f[6], f[5])
+        if io[0] not in ("ok", "err"):
             return False, "unexpected outcome " + io[0]
         return True, ""
     if op == "H":
